@@ -343,6 +343,11 @@ for _k, _v in {
     "C16": " Also: parse_expr returns only type-checked trees (typed-tree), the invariant the counted typing unwraps rest on.",
 }.items():
     ADDED[_k] = (ADDED.get(_k, "") + _v).strip()
+# round 23 (session 7)
+for _k, _v in {
+    "C17": " Also: no program number is narrowed or loses its sign on the way into an operation (narrowing, shared with C05).",
+}.items():
+    ADDED[_k] = (ADDED.get(_k, "") + _v).strip()
 # round 22 (session 7)
 for _k, _v in {
     "C03": " Also: the fallback of `or` is judged by eq_complex, not around it by == / != (or-fallback).",
